@@ -55,7 +55,8 @@ def context(tier, seed):
 
 
 def units(ctx):
-    return list(range(len(bases(ctx)))) + list(hist.hist_units()) + ["long"] + [("scale", k) for k in range(len(lib.LADDER))]
+    return list(range(len(bases(ctx)))) + list(hist.hist_units()) + ["long"] + [("scale", k) for k in range(len(lib.LADDER))] + \
+           [("sigpairs", "ks"), ("sigpairs", "ts")]
 
 
 def variants(ns, ev, ctx):
@@ -112,6 +113,22 @@ def gen_cases(unit, ctx):
                     yield {"base": ns, "base_ev": ev, "kind": kind_, "notes": vn, "events": ev, "build": "abs", "order": None}
             yield {"base": ns, "base_ev": ev, "kind": "identity:relative", "notes": ns, "events": ev, "build": "rel", "order": None}
             yield {"base": ns, "base_ev": ev, "kind": "identity:copy", "notes": ns, "events": ev, "build": "copy", "order": None}
+        return
+    if isinstance(unit, tuple) and unit[0] == "sigpairs":
+        # EVERY ordered pair of signature values on one tick: all 15 x 15 keys (enharmonic twins included) and all pairs
+        # over nine time signatures (pairs of equal bar length included)
+        ns = [[0, 4, ctx["p"], ctx["ch"][0], 64]]
+        if unit[1] == "ks":
+            vals = [["ks", 2, k] for k in ("C", "G", "D", "A", "E", "B", "F#", "C#", "F", "Bb", "Eb", "Ab", "Db", "Gb", "Cb")]
+        else:
+            vals = [["ts", 2, n, d] for n, d in ((3, 4), (6, 8), (4, 4), (2, 2), (6, 4), (12, 8), (3, 8), (2, 4), (4, 8))]
+        for a in vals:
+            for b in vals:
+                kind_ = "identity:copy" if a == b else ("perturb:ks_value" if unit[1] == "ks" else "perturb:ts_value")
+                yield {"base": ns, "base_ev": [a], "kind": kind_, "notes": ns, "events": [b], "build": "abs" if a != b else "copy", "order": None}
+                if a != b:
+                    yield {"base": ns, "base_ev": [["ts", 0, 5, 4], a], "kind": kind_, "notes": ns, "events": [["ts", 0, 5, 4], b], "build": "rel",
+                           "order": None}
         return
     if isinstance(unit, tuple) and unit[0] == "scale":
         # scale ladder: 33 ... 1025 notes spread over thousands of ticks, one pedal note of >1000 ticks; one-tick / one-step
